@@ -1301,10 +1301,17 @@ impl TypeChecker {
                 Name(name)
             }
             (Var(a), b) => {
+                // Occurs check: `x.push(x)` would make an infinite type
+                if self.occurs(a, &b) {
+                    return None;
+                }
                 self.type_info.unionfind.set(a, b.clone());
                 b.clone()
             }
             (a, Var(b)) => {
+                if self.occurs(b, &a) {
+                    return None;
+                }
                 self.type_info.unionfind.set(b, a.clone());
                 a.clone()
             }
@@ -1400,6 +1407,28 @@ impl TypeChecker {
         } else {
             self.type_info.unionfind.set(a, Type::IntVar(b, b_signed));
             Type::IntVar(b, b_signed)
+        }
+    }
+
+    /// Whether the type variable `var` occurs somewhere inside `ty`
+    fn occurs(&mut self, var: usize, ty: &Type) -> bool {
+        match self.resolve_type(ty) {
+            Type::Var(x) => x == var,
+            Type::RecordVar(_, fields) | Type::Record(fields) => {
+                fields.iter().any(|(_, t)| self.occurs(var, t))
+            }
+            Type::Function(params, ret) => {
+                params.iter().any(|t| self.occurs(var, t))
+                    || self.occurs(var, &ret)
+            }
+            Type::Name(name) => {
+                name.arguments.iter().any(|t| self.occurs(var, t))
+            }
+            Type::IntVar(..)
+            | Type::FloatVar(_)
+            | Type::ExplicitVar(_)
+            | Type::Unit
+            | Type::Never => false,
         }
     }
 
